@@ -1491,7 +1491,7 @@ class Annotation:
             for start, stop in resolution.crop(
                 segments, mode="center", return_ranges=True
             ):
-                data[max(0, start) : min(stop, num_frames), k] += 1
+                data[max(0, start) : max(0, min(stop, num_frames)), k] += 1
         data = np.minimum(data, 1, out=data)
 
         return SlidingWindowFeature(data, resolution, labels=labels)
